@@ -367,6 +367,10 @@ TreeSet_isub(BTree* self, PyObject* other)
     else {
         iter = PyObject_GetIter(other);
         if (iter == NULL) {
+            if (!PyErr_ExceptionMatches(PyExc_TypeError)) {
+                /* not "other is not iterable" but a real failure */
+                goto err;
+            }
             PyErr_Clear();
             Py_INCREF(Py_NotImplemented);
             return Py_NotImplemented;
@@ -443,6 +447,10 @@ TreeSet_ixor(BTree* self, PyObject* other)
     else {
         iter = PyObject_GetIter(other);
         if (iter == NULL) {
+            if (!PyErr_ExceptionMatches(PyExc_TypeError)) {
+                /* not "other is not iterable" but a real failure */
+                goto err;
+            }
             PyErr_Clear();
             Py_INCREF(Py_NotImplemented);
             return Py_NotImplemented;
@@ -500,6 +508,11 @@ TreeSet_iand(BTree* self, PyObject* other)
 
     iter = PyObject_GetIter(other);
     if (iter == NULL) {
+        if (!PyErr_ExceptionMatches(PyExc_TypeError)) {
+            /* not "other is not iterable" but a real failure */
+            Py_DECREF(tmp_list);
+            return NULL;
+        }
         PyErr_Clear();
         Py_INCREF(Py_NotImplemented);
         return Py_NotImplemented;
